@@ -16,7 +16,7 @@ CHECKS["C04"] = dict(
     text="Per (rep, N/D) instance the solver decides, for ALL stored values and in both directions, that will_conversion_truncate / "
          "will_conversion_overflow / is_conversion_lossy equal the exact predicates (D does not divide x*N; x*N outside the promoted range "
          "or x*N/D outside the rep's range). For float/double/long double: (A) infinite converted value => overflow reported, "
-         "(B) overflow reported => converted value infinite or within 2 ulp of max, for every bit pattern. Integral reps: the eight fixed-width types plus long long / unsigned long long.",
+         "(B) overflow reported => converted value infinite or within 2 ulp of max, for every bit pattern. Integral reps: the eight fixed-width types plus long long / unsigned long long. For floating reps also: is_conversion_lossy == overflow or truncate for every bit pattern.",
     note=TB + "; factors enumerated; FP claims are about the single IEEE operation the conversion performs; known finding D7 (one value per sign at the rounded threshold) is excluded by predicate and reported as KNOWN-FINDING.")
 CHECKS["C05"] = dict(
     category="model_checking",
@@ -32,14 +32,14 @@ CHECKS["C08"] = dict(
     text="Per (unit pair, rep pair) instance the solver decides for ALL operand pairs (x, y): if the exactly scaled operands x*k1, y*k2 fit "
          "the common rep then the six comparisons (and C++20 <=>) equal the exact order, + and - return exactly x*k1 +/- y*k2 with the raw operator's "
          "trap condition, and % equals the raw % of the scaled operands; k1, k2 come from an independent gcd-of-rationals model.",
-    note=TB + "; unit and rep pairs enumerated (integral pairs of equal signedness, incl. sub-int and mixed-width pairs; more pairs in thorough); floating reps (float/double, incl. float <=>): each operator equals the raw operator applied to the operands scaled by a constant within 4 ulp of the exact factor - the few-ulp bound itself is the closed constant check, not a solver statement about real arithmetic.")
+    note=TB + "; unit and rep pairs enumerated (integral pairs of equal signedness, incl. sub-int and mixed-width pairs; more pairs in thorough); floating reps (float/double, incl. float <=>): each operator equals the raw operator applied to the operands scaled by a constant within 4 ulp of the exact factor - the few-ulp bound itself is the closed constant check, not a solver statement about real arithmetic; long double pairs with scale factors needing more than 53 bits (10^24, 3^34, 2^53+1) must be scaled by ONE multiplication by the exact factor.")
 CHECKS["C09"] = dict(
     category="model_checking",
     technique="bounded symbolic execution of clang LLVM IR of the real templates, SMT (z3/cvc5, integer emission) against an exact affine model",
     text="Per ordered unit pair x rep, for ALL stored values: (E) no UB and exact affine result integral and representable => conversion returns exactly it; "
          "(R) intermediates fit => no UB trap; mixed-unit/mixed-rep comparisons, <=> and point-point differences equal the exact order/displacement of "
          "positions in the common point unit; point + quantity, quantity + point, point - quantity (other unit, other rep, incl. unsigned reps narrower than the common rep) equal x*k1 +/- y*k2 in the common unit "
-         "with the raw operator's trap condition; 22 operations without affine meaning are observed to be rejected by the compiler (with positive controls).",
+         "with the raw operator's trap condition; 22 operations without affine meaning are observed to be rejected by the compiler (with positive controls); on float / double the six mixed-unit point comparisons are mutually consistent for every pair of bit patterns.",
     note=TB + "; unit pairs enumerated; the 'must not compile' clause is a compiler verdict observed on enumerated probes, not a solver result; origin representation units are a datum of the model.")
 CHECKS["C10"] = dict(
     category="model_checking",
@@ -75,13 +75,13 @@ CHECKS["C02"] = dict(
     technique="bounded symbolic execution of clang LLVM IR of conversion kernels between generated unit expressions, SMT (z3/cvc5), against an independent exact unit model",
     text="For seeded generated pairs of unit expressions (products, quotients, rational powers, roots, magnitudes, prefixes; five spellings) the int64 conversion kernel is proved for ALL x to be exactly "
          "x*N/D with the MODEL's N, D; the double kernel is proved for ALL x to be a single IEEE multiply/divide by a constant that is within 4 ulp of the model's exact ratio; ratio-1 pairs are the identity; "
-         "equivalence / same-dimension / type-identity / is_integer / is_rational are closed booleans compared with the model; the nine base-dimension exponents, read out of the unit's Dimension pack, equal the model's exponent vector for products and quotients of every pair of library units (one per distinct dimension in quick) and for every generated expression; every spelling (maker, singular name, symbol) of every library unit denotes its type's unit; scaling by a magnitude that is exactly 1 (six spellings) leaves named, prefixed, already-scaled and compound units unchanged.",
+         "equivalence / same-dimension / type-identity / is_integer / is_rational are closed booleans compared with the model; the nine base-dimension exponents, read out of the unit's Dimension pack, equal the model's exponent vector for products and quotients of every pair of library units (one per distinct dimension in quick) and for every generated expression; every spelling (maker, singular name, symbol) of every library unit denotes its type's unit; scaling by a magnitude that is exactly 1 (six spellings) leaves named, prefixed, already-scaled and compound units unchanged; a composite scale factor written in one step equals the same factor written through its prime factors (pseudoprime composites).",
     note=TB + "; unit model written from SI/NIST definitions; expression trees enumerated (seeded); canonical type identity observed only as closed booleans; documented Hertz/Becquerel-style exclusions applied.")
 CHECKS["C07"] = dict(
     category="model_checking",
     technique="bounded symbolic execution of clang LLVM IR of to-common-unit kernels, SMT (z3/cvc5), against an independent gcd-of-rationals model; closed type-identity booleans",
     text="For seeded lists (2-4) of same-dimension units: each to-common-unit kernel is proved for ALL x to be x*m_i (no division, trap-free when it fits) and the m_i must equal the model's U_i/gcd(U_1..U_k) "
-         "(positive, jointly coprime); the common unit is an input exactly when the model says so; CommonUnitT is the identical type under permutations/repetitions, the value-level spelling common_unit(u1, u2, ...) denotes that same type in every argument order, and nested forms are quantity-equivalent "
+         "(positive, jointly coprime); the common unit is an input exactly when the model says so; CommonUnitT is the identical type under permutations/repetitions, the value-level spelling common_unit(u1, u2, ...) denotes that same type in every argument order, and nested forms - one nested common unit, and two nested common units in both orders, type- and value-level - are quantity-equivalent to the flat one "
          "(closed booleans); irrational lists: symmetry booleans only.",
     note=TB + "; lists enumerated (seeded); type identity is a compile-time boolean.")
 CHECKS["C12"] = dict(
@@ -96,7 +96,7 @@ CHECKS["C14"] = dict(
     technique="solver equivalence (SMT over clang LLVM IR) of Au product/quotient/power kernels with raw-operator / std-function reference kernels in the same TU; closed unit facts vs model",
     text="For reps x unit pairs and ALL operand values: q*q, q/q, s*q, s/q, unblock_int_div forms, int_pow<k>, sqrt, cbrt, as_raw_number equal the raw operator / libm call on the stored values (same bits or both NaN, "
          "same trap condition); int_pow on 8/16-bit reps equals x^k whenever x^k is representable; resulting units and collapse-to-raw-number are closed booleans vs a hand-written model table; as_raw_number compiles exactly when the documented policy accepts the conversion to the unitless unit "
-         "(grid rep x factor at the thresholds floor(max/2147), +1, 10^7, 10^9, non-integers) and accepted forms equal x*k for ALL x; units that cancel in dimension but leave an irrational factor (pi, 1/pi, sqrt 10, 100^(-1/3)) stay quantities, exactly cancelling ones collapse (hand-written facts).",
+         "(grid rep x factor at the thresholds floor(max/2147), +1, 10^7, 10^9, non-integers) and accepted forms equal x*k for ALL x; units that cancel in dimension but leave an irrational factor (pi, 1/pi, sqrt 10, 100^(-1/3)) stay quantities, exactly cancelling ones collapse; roots of roots and roots of root-scaled units have the unit with the product of the exponents (hand-written facts).",
     note=TB + "; libm functions are uninterpreted (congruence only); rejection clauses (integer-division guard, as_raw_number on dimensioned / overflow-risky input) are compiler verdicts observed at lowering, not solver results.")
 CHECKS["C17"] = dict(
     category="translation_validation",
